@@ -592,7 +592,7 @@ def c17_cases(tier, seed):
     rnd = random.Random(seed)
     cases = []
     # result sizes up to 81 elements: no seed vs explicit ones (checked against the same specification)
-    for d in [[1], [2], [8], [9], [3, 3], [2, 2, 3], [4, 4], [3, 3, 3], [5, 7], [3, 3, 3, 3], [2, 5, 5], [81], [64]]:
+    for d in [[1], [1, 1], [1, 1, 1], [2, 1], [2], [8], [9], [3, 3], [2, 2, 3], [4, 4], [3, 3, 3], [5, 7], [3, 3, 3, 3], [2, 5, 5], [81], [64]]:
         n = prod(d)
         for o in ("mul", "add", "csq"):
             steps = [RESET, leaf(1, d, [(k % 7) - 3 for k in range(n)], trk=True),
